@@ -78,7 +78,12 @@ def run_share(ctx, c):
                 # candidates the algorithm must reject come first on some tapes: conjugates of x (their minimal polynomial is x^l + m0 itself),
                 # 0 and 1 (degree < l); three rejections in a row exhaust the attempts
                 X = lambda j: (1 << (1 << j)).to_bytes(ln, "little")
-                pre = [[], [X(0)], [X(1), (1).to_bytes(ln, "little")], [bytes(ln)], [X(2), X(0)], [X(0), X(1), X(2)], [], []][expand(c["seed"] + "rj%d" % i, 1)[0] % 8]
+                sel = expand(c["seed"] + "rj%d" % i, 2)
+                pre = [[], [X(0)], [X(1), (1).to_bytes(ln, "little")], [bytes(ln)], [X(2), X(0)], [X(0), X(1), X(2)], [], [],
+                       # low-degree / sparse field elements as candidates (accepted or not as the algorithm says): long quotients in the
+                       # Euclidean sequence of the minimal-polynomial computation
+                       [(sel[1] % 61 + 3).to_bytes(ln, "little")], [X(0), (sel[1] | 0x100).to_bytes(ln, "little")], [((1 << (8 * ln - 1)) | sel[1]).to_bytes(ln, "little")],
+                       [((1 << (sel[1] % (8 * ln))) | 1).to_bytes(ln, "little")]][sel[0] % 12]
                 tp = b"".join(pre) + expand(c["seed"] + "mi%d" % i, ln * 2500)
                 r = x.call("belsGenMi", mb, ln, m0b, GEN, x.tape(tp, mode=0))
                 want = RB.gen_mi(ln, m0, tp)
@@ -182,13 +187,57 @@ def sweep_subsets(ctx, part, nparts):
 
 
 def replay_override(ctx, test, case):
-    import copy
-    ctx2 = copy.copy(ctx)
+    if test == "genmi":
+        genmi_one(ctx.x, case["ln"], case["u"], None)
+        return
     sweep_subsets(ctx, 0, 1)
+
+
+def genmi_one(x, ln, u, m0b):
+    m0 = RB.std_m(ln, 0)
+    if m0b is None:
+        x.reset()
+        m0b = x.buf(m0)
+    tp = u.to_bytes(ln, "little") + expand("genmi%d" % ln, 2 * ln)
+    mb = x.out(ln)
+    r = x.call("belsGenMi", mb, ln, m0b, GEN, x.tape(tp, mode=0))
+    want = RB.gen_mi(ln, m0, tp)
+    if (want is None) != (r != 0) or (want is not None and mb.read() != want):
+        e = Fail("belsGenMi(len=%d, standard m0, first candidate u = %#x): %s %s, the algorithm gives %s" % (ln, u, ename(r), mb.read().hex(), want.hex() if want else "no key"))
+        e.case = {"ln": ln, "u": u}
+        raise e
+    if want is not None and x.call("belsValM", mb, ln):
+        e = Fail("belsValM rejects the key generated from u = %#x (len=%d)" % (u, ln)); e.case = {"ln": ln, "u": u}
+        raise e
+
+
+def sweep_genmi(ctx, part, nparts):
+    """belsGenMi with the standard common key of each length and structured first candidates (every small field element, single and double
+    bits, runs of ones): the key must be the one the algorithm defines - the random tapes of the share test never produce such elements"""
+    x = ctx.x
+    n = 0
+    for ln in (16, 24, 32):
+        m0 = RB.std_m(ln, 0)
+        l = 8 * ln
+        cands = list(range(0, 400 if ctx.tier == "quick" else 3000))
+        cands += [1 << i for i in range(l)] + [(1 << i) | 1 for i in range(1, l)] + [(1 << i) - 1 for i in range(2, l + 1)] + [((1 << l) - 1) ^ (1 << i) for i in range(0, l, 7)]
+        k = 0
+        for j, u in enumerate(cands):
+            if j % nparts != part:
+                continue
+            if k % 64 == 0:
+                x.reset()
+                m0b = x.buf(m0)
+            k += 1
+            genmi_one(x, ln, u, m0b)
+            n += 1
+    ctx.count(n)
+    ctx.nontrivial("genmi_struct", part)
 
 
 def tests(tier):
     return [
         Test("share", S_SHARE, run_share, {"quick": 800, "thorough": 16000}, CFG),
+        Sweep("genmi", sweep_genmi, 16, CFG),
         Sweep("subsets", sweep_subsets, 16, CFG),
     ]
